@@ -7,6 +7,8 @@ Structural clauses decided:
     (matchers and the per-protocol result builders)
  prerequisites evaluated here as well: C02.R1/R2 (index transparency), C03.R2/R2b (quirks), C03.R7 (window forms),
  C12.R9 (optional headers), C12.R10 (exact-match relations)
+ further prerequisites: C06.R1/R2 (signatures load under the tokens the extractor prints), C20.R5 (a matcher exists whenever protocol
+ and matching are enabled), TW (IPv4/IPv6 twins query the same tables)
 """
 import json
 import os
